@@ -33,6 +33,8 @@ def run(R):
         r4(R)
     if R.want("C07.R5"):
         r5(R)
+    if R.want("C07.R6"):
+        r6(R)
 
 
 # --------------------------------------------------------------------------------------------------
@@ -558,3 +560,55 @@ def r5(R):
             re.search(r"(histogram|bincount|myhistogram|searchsorted|unique|count_nonzero|==)", t) is not None
         R.check(ok, "C07.R5", "ImageD11/indexing.py", a.lineno, "indexer.fight_over_peaks", "self.gas = histogram of %s after all grains competed" % lab,
                 "the per-grain counts are not computed from the final label array: %s" % t[:80])
+
+
+# --------------------------------------------------------------------------------------------------
+def r6(R):
+    """fight_over_peaks turns the final labels into per-grain counts with myhistogram(labels, bins) where bins = -0.5, 0.5, ... : grain g
+    owns the count of bin [g - 0.5, g + 0.5).  Whatever myhistogram does, every value it returns has to be computed from the VALUES
+    of the bin edges - a return value that knows 'bins' only through len(bins) places the counts relative to something else (the
+    smallest label present, zero ...) and is shifted whenever that something is not the first edge."""
+    REL = "ImageD11/indexing.py"
+    R.rule("C07.R6", "indexing.myhistogram(data, bins): every returned value depends on the values of the bin edges (not only on len(bins)); "
+                     "fight_over_peaks passes unit bins starting at -0.5 so that entry g is the count of label g")
+    m = pyfacts.module(R, REL)
+    fn = m.func("myhistogram")
+    pn = [a.arg for a in fn.args.args]
+    R.shape(len(pn) == 2, "C07.R6", REL, "myhistogram", "the two parameters (data, bins)")
+    data, bins = pn
+
+    def value_use(e):
+        """does e (with the assignments it depends on) read the values of bins?"""
+        seen = set()
+
+        def walk(x, d):
+            for y in ast.walk(x):
+                if isinstance(y, ast.Name) and isinstance(y.ctx, ast.Load):
+                    if y.id == bins:
+                        par = getattr(y, "_parent", None)
+                        if isinstance(par, ast.Call) and src(par.func) == "len":
+                            continue
+                        if isinstance(par, ast.Attribute) and par.attr in ("shape", "size", "ndim", "dtype"):
+                            continue
+                        return True
+                    if d > 0 and y.id not in seen and y.id not in pn:
+                        seen.add(y.id)
+                        for st in ast.walk(fn):
+                            if isinstance(st, ast.Assign) and any(isinstance(t, ast.Name) and t.id == y.id for tt in st.targets for t in ast.walk(tt)) and st.lineno <= x.lineno:
+                                if walk(st.value, d - 1):
+                                    return True
+            return False
+        return walk(e, 5)
+    rets = [r for r in ast.walk(fn) if isinstance(r, ast.Return) and r.value is not None]
+    R.shape(bool(rets), "C07.R6", REL, "myhistogram", "a return statement")
+    for r in rets:
+        R.check(value_use(r.value), "C07.R6", REL, r.lineno, "myhistogram", "return %s reads the bin edges" % src(r.value)[:60],
+                "this return value uses 'bins' only through its length: the counts are positioned relative to something else than the first bin "
+                "edge (e.g. the smallest label present), so when no peak is left unassigned (no label -1) every grain is credited with the "
+                "count of the next one")
+    fo = m.func("indexer.fight_over_peaks")
+    calls = [c for c in ast.walk(fo) if isinstance(c, ast.Call) and src(c.func) == "myhistogram"]
+    R.shape(len(calls) == 1 and len(calls[0].args) == 2, "C07.R6", REL, "indexer.fight_over_peaks", "the myhistogram(labels, bins) call")
+    b = pyfacts.resolved_src(fo, calls[0].args[1], 3, keep=("self",)).replace(" ", "")
+    R.check(b.startswith("np.arange(-0.5,") or b.startswith("numpy.arange(-0.5,"), "C07.R6", REL, calls[0].lineno, "indexer.fight_over_peaks",
+            "bins = arange(-0.5, ...) (%s)" % b[:60], "the bins no longer start half a unit below label 0: grain g's count is not entry g")
